@@ -346,6 +346,7 @@ def check(ctx: Ctx):
     _run_rule(ctx, "check_summaries", check_summaries)
     _run_rule(ctx, "R20.7", check_row_alignment)
     _run_rule(ctx, "check_roundtrip", c18.check_roundtrip)  # R20.5 = R18.4: non-finite / missing cells become missing at load time
+    _run_rule(ctx, "R18.4", c18.check_foreign_spellings)  # ... in whatever spelling float() accepts
     # "the recorded values": a statistic is made from the file as it is now - the aggregator keeps
     # no parsed copy between calls (other processes append rows it would never see, R15.6)
     from . import c03, c15
